@@ -876,7 +876,7 @@ def run(ctx):
                 '(grid, table) groups through MetaModelStructuredComp, 1/%d (and every evenly spaced 1-D grid) through '
                 'MetaModelSemiStructuredComp; non-trivial = distinct scenarios whose point is not a strictly interior '
                 'node.  (2) query histories: every history of InterpHist.tla (%d per scenario) x %d base scenarios '
-                '(dimension 1-3, 2 interior positions per axis, second point B = the second node of every axis) on '
+                '(dimension 1-3, point in the first or in the last cell of every axis, second point B = the second node of every axis) on '
                 'every applicable method' %
                 ('1-D: all 336 strictly increasing grids of 3-5 points in -4..4; 2-D: all pairs of %d representative grids'
                  % (5 if quick else 8) + ('' if quick else '; 3-D: 3 grids'), 1 if quick else 2, 5 if quick else 6,
